@@ -747,12 +747,12 @@ fn build_hour_minutes_as_duration(pair: Pair<Rule>) -> Duration {
     assert_eq!(pair.as_rule(), Rule::hour_minutes);
     let mut pairs = pair.into_inner();
 
-    let hour = pairs
-        .next()
-        .expect("missing hour")
-        .as_str()
-        .parse()
-        .expect("invalid hour");
+    // The literal "24:00" is matched as a whole and has no inner pair.
+    let Some(hour_rule) = pairs.next() else {
+        return Duration::hours(24);
+    };
+
+    let hour = hour_rule.as_str().parse().expect("invalid hour");
 
     let minutes = pairs
         .next()
